@@ -284,6 +284,17 @@ func driveZero(s *shardSet, rng *rand.Rand, thorough bool) ([]string, map[string
 				w.Slice(z, 0, 0)
 				w.Append(z, len(w.Views)-1) // appending an empty buffer
 				w.Append(z, z)
+				if w.Views[z].Cap() == 0 { // an empty source that HAS capacity must leave an inert destination inert
+					w.Alloc(ty, w.Views[z].Channels(), 0, 3)
+					w.Append(z, len(w.Views)-1)
+					w.AppendSample(z, w.NextStamp())
+					w.Write(z, kt, w.stamps(2))
+					if w.Views[len(w.Views)-1].Cap() > 0 {
+						w.Slice(len(w.Views)-1, 1, 1) // zero-length view in the middle of spare capacity
+						w.Append(z, len(w.Views)-1)
+						w.AppendSample(z, w.NextStamp())
+					}
+				}
 				// conversions from and to the inert view, same type family partner
 				w.Alloc(kt, ch, 2, 2)
 				p := len(w.Views) - 1
